@@ -283,6 +283,13 @@ func (vt *Model) cup(pm [][]int) {
 		vt.cursor.row = row(pm[0][0] - 1)
 		vt.cursor.col = column(pm[1][0] - 1)
 	}
+	// A parameter of 0 means the default, 1
+	if vt.cursor.col < 0 {
+		vt.cursor.col = 0
+	}
+	if vt.cursor.row < 0 {
+		vt.cursor.row = 0
+	}
 	if vt.cursor.col > column(vt.width()-1) {
 		vt.cursor.col = column(vt.width() - 1)
 	}
@@ -643,6 +650,13 @@ func (vt *Model) decstbm(pm [][]int) {
 	case 2:
 		top = row(pm[0][0] - 1)
 		bot = row(pm[1][0] - 1)
+	}
+	// A parameter of 0 means the default: the first and the last line
+	if top < 0 {
+		top = 0
+	}
+	if bot < 0 || bot > row(vt.height())-1 {
+		bot = row(vt.height()) - 1
 	}
 	if top >= bot {
 		return
